@@ -236,8 +236,8 @@ func vfMsRun(inst *vfMsInst, prop string, batch, j int, sc *vfMsScenario) *vfMsR
 	const replyWait = 20 * time.Second
 
 	if prop == "C05" {
-		// holder (LockId 1, 30 s) then a waiter (LockId 2) with a millisecond time-out
-		send(1, protocol.COMMAND_LOCK, 1, 0, 30, 0, 0, 0, 0, 0)
+		// holder (LockId 1, 300 s) then a waiter (LockId 2) with a millisecond time-out
+		send(1, protocol.COMMAND_LOCK, 1, 0, 300, 0, 0, 0, 0, 0)
 		if ev, ok := wait(replyWait, func(ev vfMsEvent) bool { return ev.rid == 1 }); !ok || ev.result != protocol.RESULT_SUCCED {
 			return res // inconclusive: counted by the caller (completed=false)
 		}
@@ -248,7 +248,7 @@ func vfMsRun(inst *vfMsInst, prop string, batch, j int, sc *vfMsScenario) *vfMsR
 			res.notEnded = fmt.Sprintf("request with a time-out of %d ms was not answered %v after its deadline", sc.E1, margin)
 		} else {
 			if ev.result != protocol.RESULT_TIMEOUT {
-				violate("wait-result", "", "a request queued behind a 30 s holder with time-out %d ms was answered %s", sc.E1, vfResName(ev.result))
+				violate("wait-result", "", "a request queued behind a 300 s holder with time-out %d ms was answered %s", sc.E1, vfResName(ev.result))
 			} else {
 				el := ev.at - sent[2]
 				res.noticed, res.lateness = true, el-term[2]
